@@ -12,9 +12,12 @@ for d in sorted(glob.glob('/verif/seeded/*/')):
     for l in m.get('results', []):
         parts = l.split()
         res.append(f"{parts[0]}:{'yes' if 'DETECTED' in l else 'no'}")
+    fr = m.get('first_result') or ''
+    first = 'missed' if 'missed' in fr else 'detected'
     rows.append((name, ', '.join(f.replace('skactiveml/', '') for f in files),
-                 needs, ' '.join(res), 'yes' if m.get('confirmed') else 'NO'))
-print('| seed | files | needs to manifest | quick checks (detected?) | demo confirmed |')
-print('|---|---|---|---|---|')
+                 needs, ' '.join(res), first,
+                 'yes' if m.get('confirmed') else 'NO'))
+print('| seed | files | needs to manifest | quick checks now (detected?) | target check at first run | demo confirmed |')
+print('|---|---|---|---|---|---|')
 for r in rows:
     print('| ' + ' | '.join(r) + ' |')
